@@ -10,6 +10,16 @@ checks={
    text="Exhaustive enumeration of handler tables x inbound sequences x schedules (deviation-bounded, with Mazurkiewicz-trace pruning) of the real Server/Client dispatch loop under a controlled scheduler, each execution compared with a first-match reference model.",
    technique="stateless model checking of the rewritten implementation (controlled scheduler, DFS with deviation bounding) against an executable reference model"),
 }
+
+HS_TECH="explicit enumeration of all protocol scripts/configurations/callback outcomes (script tree) executed on the real implementation under a controlled scheduler, each step compared with an executable reference model of the session protocol"
+for pid,txt in {
+ "C03":"Every client script (33-symbol alphabet, depth 3 quick / 4 thorough) x 6 server configurations x every Authenticate/Register outcome is executed against the real ServerChannel.EstablishSession and the real Server; established is accepted only if backed by an Authenticate call with the presented identity/scheme/credentials under an offered scheme, a known role and a successful Register whose node is the one announced.",
+ "C07":"Same script tree; the emitted session envelopes are checked against the protocol order regular expression, the single session id, the server node as sender, monotonic State(), and fail-closed behaviour (failed+reason, nothing after, connection closed) for every in-exchange violation the reference model identifies.",
+ "C09":"Same script tree over the full configuration lattice with real crypto/tls over the virtual connection: offered lists equal configured-and-supported in configuration order, confirmation only for an offered pair, and nothing travels in cleartext after a confirmed tls negotiation.",
+ "C10":"Script tree restricted to configurations without 'none' on a TLS-capable connection, including clients that skip or refuse negotiation: Authenticate, authentication requests and established envelopes are only ever observed under TLS.",
+ "C14":"Script tree against the real Server over virtual connections: every path that does not reach established must end with the connection closed by the server (client observes EOF), no per-connection goroutine left, and neither callback fired.",
+}.items():
+    checks[pid]=dict(level="model_checking",engine="gosim",design="4/"+pid,text=txt,technique=HS_TECH)
 na_reason={}
 m={"version":1,
  "setup_cmd":"./setup.sh",
